@@ -198,7 +198,7 @@ var clauseKeywords = map[string]bool{
 	"calluse": true, "bind": true, "free": true, "nosafety": true, "let": true, "invariant": true,
 	"func": true, "extern": true, "sort": true, "const": true, "fun": true, "pred": true, "lemma": true,
 	"axiom": true, "type": true, "macro": true, "method": true, "returns": true, "params": true, "variant": true,
-	"induction": true, "assert": true, "assume": true, "unfold": true, "use": true, "useif": true, "set": true,
+	"induction": true, "assert": true, "assume": true, "unfold": true, "tryunfold": true, "use": true, "useif": true, "set": true,
 	"body": true, "havoc": true, "captured": true, "defines": true, "standalone": true, "aspect": true,
 }
 
@@ -582,6 +582,11 @@ func (p *parser) parseHint() *Hint {
 	switch t.s {
 	case "assert", "lassert", "assume", "unfold", "use", "useif":
 		h.E = p.parseExpr()
+	case "tryunfold":
+		// as unfold, but skipped where the expression's variables are not in scope (a return reached by several paths)
+		h.Kind = "unfold"
+		h.Try = true
+		h.E = p.parseExpr()
 	case "forget":
 		// forget call: the facts assumed from the most recent call's contract are visible only inside this block
 		h.Name = p.ident()
@@ -601,7 +606,7 @@ func (p *parser) parseHint() *Hint {
 }
 
 func isHintKw(s string) bool {
-	return s == "assert" || s == "assume" || s == "unfold" || s == "use" || s == "useif" || s == "set" || s == "havoc" || s == "let" || s == "forget" || s == "lassert"
+	return s == "assert" || s == "assume" || s == "unfold" || s == "use" || s == "useif" || s == "set" || s == "havoc" || s == "let" || s == "forget" || s == "lassert" || s == "tryunfold"
 }
 
 func (p *parser) parseHintBlock() []*Hint {
